@@ -59,6 +59,9 @@ RULES = {
     "R7": [(re.compile(r"<(u8|u16|u32|u64|u128|i8|i16|i32|i64|i128|f64)>::parse(_be)?\b"), r"vf_parse_\1"),
            (re.compile(r"\b(u8|u16|u32|u64|u128|i8|i16|i32|i64|i128|f64)::parse\("), r"vf_parse_\1("),
            (re.compile(r"<Vec<u8>>::parse(_be)?\("), r"vf_parse_vec_u8(")],
+    # R12 (signature only): the boxed trait-object error type of the V9/IPFIX exporters is replaced by an opaque shim
+    #      type (`?` still goes through a From conversion); error *values* are not part of any contract.
+    "R12": [(re.compile(r"Box<dyn\s+std::error::Error>"), "VfError")],
     # R13: `<Vec<T>>::parse_be(i)` is nom-derive's blanket impl for Vec<T>: many0(complete(T::parse_be))(i)
     #      (nom-derive 0.10.1 src/traits.rs); inlined so that the combinator contracts apply
     "R13": [(re.compile(r"<Vec<(?!u8>)(\w+)>>::parse(_be)?\("), r"nom::multi::many0(nom::combinator::complete(<\1>::parse_be))(")],
@@ -283,6 +286,13 @@ class Extractor:
         txt = strip_attrs_and_docs(raw)
         if not txt.lstrip().startswith("pub"):
             txt = "pub " + txt.lstrip()
+        # `Copy` types stay `Copy` (field reads through references move otherwise); every other derive is dropped
+        pre = s.masked[max(0, a - 600):a]
+        k = pre.rfind("}")
+        k2 = pre.rfind(";")
+        attrs = s.text[max(0, a - 600):a][max(k, k2) + 1:]
+        if re.search(r"derive\([^)]*\bCopy\b", attrs) and "nocopy" not in args[3:]:
+            txt = "#[derive(Clone, Copy)]\n" + txt
         self.meta["types"].append({"name": name, "src": src, "sha256": hashlib.sha256(raw.encode()).hexdigest()[:16]})
         return txt + "\n"
 
@@ -417,6 +427,38 @@ class Extractor:
                 newhdr = hdr[:mm.end()] + itname.strip() + ": " + hdr[mm.end():].rstrip() + "\n" + inv.strip() + "\n"
                 edits.append((ks, ob, newhdr))
                 hits["R4"] = hits.get("R4", 0) + 1
+            elif key.startswith("opaquefor "):
+                # R5 on the n-th for-loop (whole loop statement replaced by a contracted stub call)
+                if fl is None:
+                    fl = loops(body, ("for",))
+                n = int(key.split()[1])
+                if n >= len(fl):
+                    raise AnchorLost("fn %s: for-loop #%d not found" % (fname, n))
+                ks, ob = fl[n]
+                ce = match_close(mask(body), ob)
+                stmt = body[ks:ce + 1]
+                edits.append((ks, ce + 1, val.strip()))
+                hits["R5"] = hits.get("R5", 0) + 1
+                self.meta.setdefault("opaque_statements", []).append(
+                    {"fn": fname, "text": " ".join(stmt.split()),
+                     "sha256": hashlib.sha256(stmt.encode()).hexdigest()[:16], "stub": val.strip()})
+            elif key.startswith(("beforefor ", "forstart ", "forend ")):
+                if fl is None:
+                    fl = loops(body, ("for",))
+                kind, n = key.split()
+                n = int(n)
+                if n >= len(fl):
+                    raise AnchorLost("fn %s: for-loop #%d not found" % (fname, n))
+                if not SPEC_ONLY.match(val):
+                    raise TemplateError("inserted text must be spec-only: " + val[:40])
+                ks, ob = fl[n]
+                if kind == "beforefor":
+                    pos = ks
+                elif kind == "forstart":
+                    pos = ob + 1
+                else:
+                    pos = match_close(mask(body), ob)
+                edits.append((pos, pos, " " + val.strip() + " "))
             elif key.startswith("loop "):
                 if wl is None:
                     wl = loops(body, ("while", "loop"))
@@ -436,19 +478,31 @@ class Extractor:
             elif key.startswith("opaque "):
                 anchor = key.partition(" ")[2].strip().strip('"')
                 mm = find_unique(body, anchor)
-                # statement extends to the next ';' at depth 0
                 mk = mask(body)
-                k = mm.start()
-                depth = 0
-                while True:
-                    ch = mk[k]
-                    if ch in "([{":
-                        depth += 1
-                    elif ch in ")]}":
-                        depth -= 1
-                    elif ch == ";" and depth == 0:
-                        break
-                    k += 1
+                if re.match(r"(for|while|loop|if)\b", mk[mm.start():]):
+                    # a block statement: extends to the brace that closes its body
+                    k = mm.start()
+                    depth = 0
+                    while not (mk[k] == "{" and depth == 0):
+                        if mk[k] in "([":
+                            depth += 1
+                        elif mk[k] in ")]":
+                            depth -= 1
+                        k += 1
+                    k = match_close(mk, k)
+                else:
+                    # statement extends to the next ';' at depth 0
+                    k = mm.start()
+                    depth = 0
+                    while True:
+                        ch = mk[k]
+                        if ch in "([{":
+                            depth += 1
+                        elif ch in ")]}":
+                            depth -= 1
+                        elif ch == ";" and depth == 0:
+                            break
+                        k += 1
                 stmt = body[mm.start():k + 1]
                 edits.append((mm.start(), k + 1, val.strip()))
                 hits["R5"] = hits.get("R5", 0) + 1
@@ -571,7 +625,7 @@ class Extractor:
                     d2 = s2[3:]
                     if d2.strip() == "end":
                         break
-                    mk = re.match(r"\s{0,3}((?:closure|forloop|loop)\s+\d+|before\s+\"[^\"]*\"|after\s+\"[^\"]*\"|opaque\s+\"[^\"]*\"|\w+):(.*)$", d2)
+                    mk = re.match(r"\s{0,3}((?:closure|forloop|opaquefor|beforefor|forstart|forend|loop)\s+\d+|before\s+\"[^\"]*\"|after\s+\"[^\"]*\"|opaque\s+\"[^\"]*\"|\w+):(.*)$", d2)
                     if mk and not d2.startswith("     "):
                         opts.append([mk.group(1), mk.group(2)])
                     else:
